@@ -1045,3 +1045,30 @@ func (ex *Exec) callCallback(id *ast.Ident, sig *types.Signature, args []Value, 
 	ex.note("callback " + id.Name + " of " + f.fn.Short + ": assumed to satisfy its callback contract (checked against the closures passed at call sites only when the callee is inlined there)")
 	return res, true
 }
+
+// checkCallSite: obligations attached by the enclosing function's contract to one particular call expression.
+func (ex *Exec) checkCallSite(call *ast.CallExpr, st *State) {
+	if ex.spec > 0 || len(ex.frames) == 0 {
+		return
+	}
+	f := ex.frame()
+	if f.fn == nil || f.fn.Con == nil || f.lit || len(f.fn.Con.CallSites) == 0 || f.fn.Decl.Body == nil {
+		return
+	}
+	text := strings.ReplaceAll(nodeText(ex.vc.fset, call.Fun), " ", "")
+	ord := -1
+	n := 0
+	ast.Inspect(f.fn.Decl.Body, func(x ast.Node) bool {
+		if ce, ok := x.(*ast.CallExpr); ok && strings.ReplaceAll(nodeText(ex.vc.fset, ce.Fun), " ", "") == text {
+			if ce == call {
+				ord = n
+			}
+			n++
+		}
+		return true
+	})
+	for k, c := range f.fn.Con.CallSites[fmt.Sprintf("%s#%d", text, ord)] {
+		g := ex.evalClause(c, st, f.oldSt, nil)
+		ex.check(st, g, "callsite-requires", call, fmt.Sprintf("callsite:%s#%d/requires#%d", text, ord, k))
+	}
+}
